@@ -4,7 +4,7 @@ from __future__ import annotations
 import itertools
 import math
 
-from tools.c03_loop import ABSTRACT, FIELDS, field_of
+from tools.c03_loop import ABSTRACT, FIELDS, OBJECT_TYPES, field_of
 
 LEAF_FIELDS = [f for f, d in FIELDS.items() if d[3] == "String"]
 COMP_FIELDS = [f for f, d in FIELDS.items() if d[3] != "String"]
@@ -49,11 +49,11 @@ def gen_sel(g: _G, depth: int, ctx: str, top=False):
                 if ctx in ("Q", "M"):
                     on = rng.choice([None, ctx])
                 else:
-                    on = rng.choice([None, "T", "V", "I", "I"])
+                    on = rng.choice([None, "T", "V", "W", "I", "I"])
                 out.append({"on": on, "sel": [it]})
             elif r < g.p["p_inline"] + g.p["p_spread"] and ctx not in ("Q", "M"):
                 name = f"F{len(g.frags)}"
-                on = rng.choice(["T", "V", "I"])
+                on = rng.choice(["T", "V", "W", "I"])
                 g.frags[name] = {"on": on, "sel": [it]}
                 out.append({"spread": name})
             else:
@@ -61,7 +61,7 @@ def gen_sel(g: _G, depth: int, ctx: str, top=False):
         items = out
     if ctx == "U":
         # a union has no fields of its own: everything must sit in a fragment
-        items = [it if "f" not in it else {"on": g.rng.choice(["T", "V", "I"]), "sel": [it]} for it in items]
+        items = [it if "f" not in it else {"on": g.rng.choice(["T", "V", "W", "I", "I"]), "sel": [it]} for it in items]
     return items
 
 
@@ -81,7 +81,7 @@ def flat_fields(sel, frags, acc=None):
 
 
 def applies(on, tn):
-    return on is None or on == tn or (on in ABSTRACT and tn in ("T", "V"))
+    return on is None or on == tn or (on in ABSTRACT and tn in OBJECT_TYPES)
 
 
 def collect(sel, frags, tn, acc=None, seen=None):
@@ -134,7 +134,7 @@ def gen_value(g: _G, fname: str, sub, depth_item=False, item_nn=None):
         g.val += 1
         return {"t": "leaf", "v": f"x{g.val}"}
     if base in ABSTRACT:
-        tn = rng.choice(["T", "V"]) if rng.random() > p["p_badtype"] else "X"
+        tn = rng.choice(OBJECT_TYPES) if rng.random() > p["p_badtype"] else "X"
     else:
         tn = base if rng.random() > p["p_badtype"] else ("V" if base == "T" else "T")
     vs = {"t": "obj", "tn": tn, "ito": rng.random() > p["p_badtype"], "f": {}}
@@ -196,12 +196,69 @@ def gen_case(rng, kmax=6, depth=3, op=None, variant=None, p=None):
             continue
         vs[key] = k
         if key == "aw":
-            vs["co"] = rng.random() < 0.4
+            vs["co"] = rng.random() < 0.5
+        if key == "aiter" or vs.get("co"):
+            vs["cl"] = rng.choice([0, 0, 1, 2, 3])
         k += 1
     # an async-iterator list delivers plain items
     _strip_aiter_items(data)
     case = {"variant": variant, "op": op, "sel": sel, "frags": g.frags, "data": data, "k": k, "stream": "gen"}
+    case["ito_modes"] = gen_modes(rng)
     return case
+
+
+def gen_modes(rng):
+    """is_type_of of every object type independently: no predicate / always sync / awaitable."""
+    return {t: rng.choice(["aw", "aw", "sync", "sync", "none"]) for t in OBJECT_TYPES}
+
+
+ABSTRACT_FIELDS = [f for f, d in FIELDS.items() if d[3] in ABSTRACT]
+
+
+def gen_abstract_case(rng, kmax=5):
+    """Values of interface / union type (single and in lists) that need type resolution: with
+    the default type resolver (no resolve_type, no __typename) or resolve_type, the matching
+    possible type at any index, each predicate independently absent / sync / awaitable; the
+    awaitable sites are preferably the is_type_of predicates of these values."""
+    variant = "B" if rng.random() < 0.8 else "A"
+    g = _G(rng, dict(DEFAULT_P, p_comp=0.3, p_null=0.04, p_raise=0.04, p_badtype=0.04))
+    op = "mutation" if rng.random() < 0.15 else "query"
+    root = "M" if op == "mutation" else "Q"
+    sel = []
+    for _ in range(rng.randint(1, 3)):
+        f = rng.choice(ABSTRACT_FIELDS)
+        g.alias += 1
+        sub = gen_sel(g, rng.randint(0, 1), FIELDS[f][3])
+        sel.append({"f": f, "a": f"{f}_{g.alias}", "sel": sub})
+    if rng.random() < 0.5:
+        sel.insert(rng.randint(0, len(sel)), {"f": rng.choice(LEAF_FIELDS), "a": None})
+    data = {"t": "obj", "tn": root, "ito": True, "f": {}}
+    for rk, subsel in flat_fields(sel, g.frags).items():
+        data["f"][rk] = gen_value(g, field_of(rk), subsel)
+    slots = site_slots(data, variant)
+    rng.shuffle(slots)
+    slots.sort(key=lambda sk: 0 if sk[1] in ("ito_aw", "rt_aw") else 1)
+    k = 0
+    want = rng.randint(1, kmax)
+    n_type_sites = rng.randint(1, want)
+    for vs, key in slots:
+        if k >= want:
+            break
+        if key in ("ito_aw", "rt_aw") and k >= n_type_sites:
+            continue
+        if key == "aiter" and any("aw" in it for it in vs["items"]):
+            continue
+        vs[key] = k
+        if key == "aw":
+            vs["co"] = rng.random() < 0.5
+        if key == "aiter" or vs.get("co"):
+            vs["cl"] = rng.choice([0, 0, 1, 2])
+        k += 1
+    _strip_aiter_items(data)
+    modes = gen_modes(rng)
+    if all(m == "none" for m in modes.values()):
+        modes[rng.choice(OBJECT_TYPES)] = "aw"
+    return {"variant": variant, "op": op, "sel": sel, "frags": g.frags, "data": data, "k": k, "stream": "abstract", "ito_modes": modes}
 
 
 def _strip_aiter_items(vs):
@@ -305,7 +362,92 @@ def gen_lifetime_case(rng, variant=None):
             vs, key = rng.choice(slots)
             vs[key] = 1
             k = 2
-    return {"variant": variant or rng.choice(["A", "B"]), "op": op, "sel": sel, "frags": {}, "data": data, "k": k, "stream": "lifetime"}
+    return {"variant": variant or rng.choice(["A", "B"]), "op": op, "sel": sel, "frags": {}, "data": data, "k": k, "stream": "lifetime", "ito_modes": gen_modes(rng)}
+
+
+# ------------------------------------------------------------------------------------ cancellation shapes
+
+NN_FIELDS = [f for f, d in FIELDS.items() if d[0]]
+
+
+def gen_cancel_case(rng):
+    """A selection set in which a non-null awaitable child fails while sibling resolver
+    coroutines (with awaited cleanup), async iterators and nested awaitables are pending: the
+    siblings are cancelled (gather_with_cancel) and must have finished unwinding before anything
+    that follows - in particular the next root field of a mutation."""
+    g = _G(rng, dict(DEFAULT_P, p_null=0.03, p_raise=0.03, p_badtype=0.0, p_iter_raise=0.0))
+    op = "mutation" if rng.random() < 0.75 else "query"
+    root = "M" if op == "mutation" else "Q"
+    sel, hot = [], []
+    n_root = rng.randint(2, 4)
+    n_hot = rng.randint(1, 2)
+    for r in range(n_root):
+        g.alias += 1
+        if r < n_hot:
+            f = rng.choice(["o", "on", "v", "l", "ln"])
+            bad = rng.choice(NN_FIELDS)
+            sub = [{"f": bad, "a": None, **({"sel": gen_sel(g, 0, FIELDS[bad][3])} if FIELDS[bad][3] != "String" else {})}]
+            for _ in range(rng.randint(1, 3)):
+                sf = rng.choice(LEAF_FIELDS + COMP_FIELDS[:4])
+                g.alias += 1
+                it = {"f": sf, "a": f"{sf}_{g.alias}"}
+                if FIELDS[sf][3] != "String":
+                    it["sel"] = gen_sel(g, 1, FIELDS[sf][3])
+                sub.insert(rng.randint(0, len(sub)), it)
+            rk = f"{f}_{g.alias}"
+            sel.append({"f": f, "a": rk, "sel": sub})
+            hot.append((rk, bad))
+        else:
+            f = rng.choice(LEAF_FIELDS + ["o", "on"])
+            it = {"f": f, "a": f"{f}_{g.alias}"}
+            if FIELDS[f][3] != "String":
+                it["sel"] = gen_sel(g, 1, FIELDS[f][3])
+            sel.append(it)
+    if rng.random() < 0.3:
+        rng.shuffle(sel)
+    data = {"t": "obj", "tn": root, "ito": True, "f": {}}
+    for rk, subsel in flat_fields(sel, g.frags).items():
+        data["f"][rk] = gen_value(g, field_of(rk), subsel)
+    k = 0
+    for rk, bad in hot:
+        vs = data["f"][rk]
+        objs = [vs] if vs["t"] == "obj" else [it for it in vs.get("items", []) if it["t"] == "obj"]
+        for ob in objs[:2]:
+            if k >= 8:
+                break
+            ob["f"][bad] = rng.choice([{"t": "raise"}, {"t": "leaf", "v": None}])
+            ob["f"][bad].update({"aw": k, "co": rng.random() < 0.5, "cl": rng.choice([0, 1])})
+            k += 1
+            for key, c in ob["f"].items():
+                if key == bad or k >= 8:
+                    continue
+                if c["t"] == "list" and rng.random() < 0.5 and not any("aw" in it for it in c["items"]):
+                    c["aiter"] = k
+                    c["cl"] = rng.choice([0, 1, 2, 3])
+                    k += 1
+                elif rng.random() < 0.8:
+                    c["aw"] = k
+                    c["co"] = rng.random() < 0.75
+                    c["cl"] = rng.choice([0, 1, 2, 3])
+                    k += 1
+                    # a nested awaitable below an awaited sibling
+                    if c["t"] == "obj" and c["f"] and rng.random() < 0.5 and k < 8:
+                        inner = rng.choice(list(c["f"].values()))
+                        inner["aw"] = k
+                        inner["co"] = True
+                        inner["cl"] = rng.choice([0, 2])
+                        k += 1
+    # some later root fields awaitable as well
+    for it in sel:
+        rk = it.get("a") or it["f"]
+        vs = data["f"][rk]
+        if "aw" not in vs and rng.random() < 0.3 and k < 9:
+            vs["aw"] = k
+            vs["co"] = rng.random() < 0.5
+            vs["cl"] = rng.choice([0, 1])
+            k += 1
+    _strip_aiter_items(data)
+    return {"variant": rng.choice(["A", "B"]), "op": op, "sel": sel, "frags": g.frags, "data": data, "k": k, "stream": "cancel", "ito_modes": gen_modes(rng)}
 
 
 # ------------------------------------------------------------------------------------ schedules
